@@ -60,7 +60,7 @@ def run(ctx):
     ctx.rule("C13.axis-table", "letters a,b,c map to rows 0,1,2 in both functions; any other letter raises ValueError")
     I = Interp(ctx.program)
     D = "pydrex.diagnostics."
-    N = 3
+    N = 3 if ctx.tier == "quick" else 5
     A = symarr("A", (N, 3, 3))
     for fname in ("symmetry_pgr", "bingham_average"):
         loc = defloc(ctx, D + fname)
@@ -137,7 +137,7 @@ def run(ctx):
             if r_ != row:
                 twofold[0, r_] = -twofold[0, r_]
         ctx.ob("C13.objective", f"{letter}:lattice two-fold about the axis", same_tris({tri_of(twofold, letter)}, base), "", loc)
-        perm = A[[2, 0, 1]].copy()
+        perm = A[list(range(1, N)) + [0]].copy()
         ctx.ob("C13.objective", f"{letter}:grain permutation", same_tris({tri_of(perm, letter)}, base), "", loc)
         rot = np.empty(A.shape, dtype=object)
         for g in range(N):
